@@ -55,6 +55,8 @@ def sign(key: bytes, digest: bytes, aux: Optional[bytes] = None) -> bytes:
 
     if aux is None:
         aux = secrets.token_bytes(32)
+    assert len(key) == 32, "secret key must be 32 bytes"
+    assert len(aux) == 32, "aux must be 32 bytes"
     key = int.from_bytes(key, "big")
     if key == 0 or key >= SECP256K1_N:
         raise ValueError("invalid secret key")
@@ -97,6 +99,8 @@ def verify(pk: bytes, m: bytes, sig: bytes) -> bool:
     Schnorr sig verification per
     https://github.com/bitcoin/bips/blob/master/bip-0340.mediawiki#verification
     """
+    assert len(pk) == 32, "public key must be 32 bytes"
+    assert len(sig) == 64, "signature must be 64 bytes"
     x, y = lift_x(pk)
     assert point_is_on_curve(x, y), "point is not on the curve"
     r = int.from_bytes(sig[:32], "big")
